@@ -434,6 +434,17 @@ class Gen:
             for a in attrs:
                 self.emit(ind + a)
             hdr = it.text(it.attr_hi, it.body_open)
+            if c is not None and c.mode == "inherent":
+                # R21: Verus does not allow `requires` on a trait-method implementation; where the
+                # method needs the value's invariant as a precondition the impl is emitted as an
+                # inherent impl of the same type (`impl<G> Trait for Type` -> `impl<G> Type`); the
+                # method bodies are unchanged.  Drops: the fact that the method is reachable through
+                # the trait (callers inside the crate would no longer resolve -> fail closed).
+                mh = re.match(r"(?s)^(\s*impl\s*(?:<[^>]*>)?)\s*[\w:]+(?:<[^>]*>)?\s+for\s+(.*)$", hdr.rstrip())
+                if not mh:
+                    raise ExtractError(f"{relsrc}:{it.line}: R21: cannot make `{hdr.strip()}` inherent")
+                hdr = mh.group(1) + " " + mh.group(2)
+                self.count("R21_trait_impl_as_inherent")
             self.emit(ind + hdr.rstrip() + " {", {"src": relsrc, "line": it.line, "item": key})
             inner = split_items(it.src, it.toks, it.body_open + 1, it.body_close)
             if c is not None and c.extra:
@@ -966,8 +977,15 @@ class Gen:
                     elif fmt.startswith("{}", j):
                         pieces.append(("lit", cur)); cur = ""
                         pieces.append(("arg", holes)); holes += 1; j += 2
+                    elif ch == "{" and re.match(r"\{:[#?xXobeE0-9<>^+.]*\}", fmt[j:]):
+                        # a positional hole with a format spec ({:?}, {:#X}, ..): the argument is
+                        # still evaluated and handed to std's printer in order; what is printed is
+                        # left unspecified (fmt_arg_styled)
+                        mm = re.match(r"\{:[#?xXobeE0-9<>^+.]*\}", fmt[j:])
+                        pieces.append(("lit", cur)); cur = ""
+                        pieces.append(("styled", holes)); holes += 1; j += len(mm.group(0))
                     elif ch in "{}":
-                        raise ExtractError(f"{relsrc}: {key}: write! format uses a hole other than plain {{}} (unsupported)")
+                        raise ExtractError(f"{relsrc}: {key}: write! format uses a named / indexed hole (unsupported)")
                     else:
                         cur += ch; j += 1
                 pieces.append(("lit", cur))
@@ -978,6 +996,8 @@ class Gen:
                     if kind == "lit":
                         if v:
                             stmts.append(f'fmt_lit({fexpr}, {self.lit_const(v)})?;')
+                    elif kind == "styled":
+                        stmts.append(f"fmt_arg_styled({fexpr}, &({exprs[v]}))?;")
                     else:
                         stmts.append(f"fmt_arg({fexpr}, &({exprs[v]}))?;")
                 rep = "{ " + " ".join(stmts) + " Ok(()) }"
